@@ -69,7 +69,8 @@ Definition init : state := mk_state (fun _ => None) 0 (fun _ => None) (fun _ => 
 Definition upd {A} (f : nat -> A) (x : nat) (v : A) : nat -> A := fun y => if Nat.eqb y x then v else f y.
 
 Inductive op := OTime (t : Z) | ORand (r : nat) | OOpen | OFlock | OStat | OClose | ORemove | OSleep
-  | OList | OMtime (m : option Z) | OUnlink.
+  | OList | OMtime (m : option Z) | OUnlink
+  | OFlockErr | ORemoveErr.   (* environment faults, see step_fault *)
 Inductive res :=
 | RUnit
 | ROpen (k : slot) (i : inode) (created : bool)
@@ -227,6 +228,38 @@ Fixpoint runc (chk : bool) (cfg : pid -> pconf) (s : state) (l : list label) : o
   | (p, o) :: r =>
     match stepc chk cfg s p o with
     | Some (s', _, _) => runc chk cfg s' r
+    | None => None
+    end
+  end.
+
+(* ---------------------------------------------------------------- environment faults
+
+   OFlockErr: fcntl.flock fails with an errno other than "held by somebody else" (ENOLCK ...): _lock_file turns every
+   IOError/OSError of flock into LockError, the attempt fails like a refused one (fp.close(), retry or timeout).
+   ORemoveErr: os.remove in unlock() of a remove_on_unlock lock fails although the file is there (EPERM, read-only
+   directory): `except OSError: self._lock.close()` - the lock is released by closing, the file stays. *)
+Definition step_fault (cfg : pid -> pconf) (s : state) (p : pid) (o : op) : option (state * res * event) :=
+  match st_pc (ps s p), o with
+  | Opened a i, OFlockErr => Some (set_pc s p (Closing a i false), RFlock false, ENone)
+  | Inside k i, ORemoveErr =>
+    if removes (cfg p) then Some (set_pc s p (RmFailed k i), RRemove false, ENone) else None
+  | _, _ => None
+  end.
+
+(* lock users, clean-up processes and faults *)
+Definition stepf (chk : bool) (cfg : pid -> pconf) (s : state) (p : pid) (o : op) : option (state * res * event) :=
+  match o with
+  | OFlockErr => if is_clean (cfg p) then None else step_fault cfg s p o
+  | ORemoveErr => if is_clean (cfg p) then None else step_fault cfg s p o
+  | _ => stepc chk cfg s p o
+  end.
+
+Fixpoint runf (chk : bool) (cfg : pid -> pconf) (s : state) (l : list label) : option state :=
+  match l with
+  | [] => Some s
+  | (p, o) :: r =>
+    match stepf chk cfg s p o with
+    | Some (s', _, _) => runf chk cfg s' r
     | None => None
     end
   end.
@@ -464,6 +497,17 @@ Definition cfg_of (l : list pconf) (p : pid) : pconf := nth p l (mk_pconf (KFile
 Definition trace_ok (chk : bool) (l : list pconf) (tr : list obs) : bool :=
   match first_bad chk (cfg_of l) init tr 0 with None => true | Some _ => false end.
 
+(* faults change no clock and no modification time *)
+Definition tstepf (chk : bool) (cfg : pid -> pconf) (ts : tstate) (p : pid) (o : op) : option tstate :=
+  match o with
+  | OFlockErr | ORemoveErr =>
+    match stepf chk cfg (base ts) p o with
+    | Some (s', _, _) => Some (mk_tstate s' (now ts) (mtime ts) (opened ts))
+    | None => None
+    end
+  | _ => tstep chk cfg ts p o
+  end.
+
 (* comparison of a trace with clock increments *)
 Inductive tobs := TTick (d : Z) | TObs (x : obs).
 
@@ -472,7 +516,7 @@ Fixpoint tfirst_bad (chk : bool) (cfg : pid -> pconf) (ts : tstate) (tr : list t
   | [] => None
   | TTick d :: rest => if Z.leb 0 d then tfirst_bad chk cfg (tick ts d) rest (S n) else Some n
   | TObs (p, o, r, e) :: rest =>
-    match stepc chk cfg (base ts) p o, tstep chk cfg ts p o with
+    match stepf chk cfg (base ts) p o, tstepf chk cfg ts p o with
     | Some (_, r', e'), Some ts' =>
       if res_eqb r r' && event_eqb e e' then tfirst_bad chk cfg ts' rest (S n) else Some n
     | _, _ => Some n
